@@ -32,7 +32,8 @@ CLAIMS = {
              '(Heap/Local.v): from any well-formed, synchronised state - in particular after a deepCopy - any sequence of '
              'the twelve core calls, whatever their outcome, that names no element of a document dB and not dB itself leaves '
              'every element of dB and its membership lists exactly as they were (the invariant: no stream/track link leads '
-             'into dB from outside, no other document lists an element of dB, nothing outside is parented by dB). Partial '
+             'into dB from outside, no other document lists an element of dB, nothing outside is parented by dB); the same for '
+             'the extended calls except reassignIds (Heap/LocalExt.v). Partial '
              'in two respects: that deepCopy never throws on such a source is not proved, and "hence byte-identical XML" '
              'relies on C01.',
         design='8 C09'),
